@@ -17,7 +17,9 @@ Record dcfg := mk_dcfg {
   c_ts_first : bool;
   c_pkt_cb : bool;             (* a packet callback is registered (=> header time is rewritten) *)
   c_tz : Z;                    (* seconds east of UTC of the process time zone (fixed offset) *)
-  c_user : Z; c_tail : Z       (* input_param.user_layer_bytes / tail_layer_bytes *)
+  c_user : Z; c_tail : Z;      (* input_param.user_layer_bytes / tail_layer_bytes *)
+  c_from_file : bool           (* decoder_param.config_from_file (debugging aid) with an angle file that cannot be read: the
+                                  constructor clears wait_for_difop and no DIFOP packet ever loads calibration *)
 }.
 
 (* ---------------------------------------------------------------- points *)
@@ -69,7 +71,8 @@ Definition init_split (c : dcfg) : split_state :=
 
 Definition init_dstate (d : desc) (c : dcfg) : dstate :=
   let n := Z.to_nat (d_laser_num d) in
-  mk_dstate (d_init_angles_ready d) false
+  (* config_from_file: the calibration gate never closes and DIFOP never loads a table: both are what "ready" means below *)
+  mk_dstate (d_init_angles_ready d || c_from_file c) false
     (repeat 0 n) (repeat 0 n) (repeat 0 n)
     10 (d_init_blks_per_frame d) (split_blks_of d false (d_init_blks_per_frame d)) 20 0
     (init_split c) seq_init None false 0 0 0 0 true false None None.
